@@ -127,13 +127,17 @@ pub fn dp_composed(tier: Tier) -> Vec<DpQuery> {
             let on_ok = r.tags.contains(&"on-eq") || r.tags.contains(&"on-eq-and-cmp") || r.tags.contains(&"on-eq-or-eq");
             // plus the right / full joins on the plain equality (rows of the non-preserved side without a partner)
             let outer_ok = (r.tags.contains(&"right") || r.tags.contains(&"full")) && (r.tags.contains(&"on-eq") || r.tags.contains(&"on-eq-and-cmp"));
-            if !(pair_ok && ((kind_ok && on_ok) || outer_ok)) {
+            // an equality between columns that are not join partners (rows of different owners), every outer kind
+            let other_pair_ok = r.tags.contains(&"on-eq-other-pair") && !r.tags.contains(&"inner") && !r.tags.contains(&"cross") && r.tables.len() == 2 && r.tables[0] != r.tables[1];
+            // a public table (ref) joined with users, either side, every outer kind, plain equality
+            let public_pair_ok = r.tables.contains(&"ref") && r.tables.contains(&"users") && r.tags.contains(&"on-eq") && (r.tags.contains(&"left") || r.tags.contains(&"right") || r.tags.contains(&"full"));
+            if !((pair_ok && ((kind_ok && on_ok) || outer_ok || other_pair_ok)) || public_pair_ok) {
                 continue;
             }
         }
         let mut tags: Vec<&'static str> = vec!["composed", "agg-over-join"];
         for t in &r.tags {
-            if matches!(*t, "ungrouped" | "grouped" | "left" | "right" | "full" | "cross" | "inner" | "on-eq" | "on-eq-and-cmp" | "on-eq-or-eq" | "on-lt" | "on-eq-reversed" | "using") && !tags.contains(t) {
+            if matches!(*t, "ungrouped" | "grouped" | "left" | "right" | "full" | "cross" | "inner" | "on-eq" | "on-eq-and-cmp" | "on-eq-or-eq" | "on-eq-other-pair" | "on-lt" | "on-eq-reversed" | "using") && !tags.contains(t) {
                 tags.push(t);
             }
         }
